@@ -149,6 +149,26 @@ def binding_program(rng):
     return m, calls
 
 
+def binding_targets():
+    """fixed run-time binding programs (each twice, so that both optimisation settings see it): the last statement of a scope stores to a variable and
+    the very next scope declares the name again without initialiser and reads it -- the read must see the new, zero variable"""
+    def f(body):
+        return Module([Global("int", "g0"), Func("f", [Arg("int", "p0"), Arg("int", "p1")], "int", Block(body), export=True)])
+    c0, c1 = B(">", V("p0"), I(0)), B(">", V("p0"), I(1))
+    progs = [
+        f([Block([Decl("int", "x", I(5))]), Block([Decl("int", "x"), Ret(V("x"))]), Ret(I(-1))]),
+        f([Block([Decl("int", "x", V("p1"))]), Block([Decl("int", "x"), ES(A(V("g0"), V("x")))]), Ret(B("+", V("g0"), I(100)))]),
+        f([Block([Decl("int", "x"), ES(A(V("x"), B("+", V("p1"), I(7))))]), Block([Decl("int", "x"), ES(A(V("g0"), B("+", V("x"), I(1))))]), Ret(V("g0"))]),
+        f([If(c0, Block([Decl("int", "t", I(7))])), If(c1, Block([Decl("int", "t"), Ret(V("t"))])), Ret(I(-1))]),
+        f([If(c0, Block([Decl("int", "t", I(7))]), Block([Decl("int", "t", I(8))])), Block([Decl("int", "t"), ES(A(V("g0"), B("+", V("t"), V("p1"))))]), Ret(V("g0"))]),
+        f([Decl("int", "s", I(0)), For(Decl("int", "i", I(0)), B("<", V("i"), I(3)), Pre("++", "i"), Block([Decl("int", "t"), ES(A(V("s"), B("+", B("*", V("s"), I(10)), V("t")))), ES(A(V("t"), B("+", V("i"), I(4))))])), Ret(V("s"))]),
+        f([Decl("int", "s", I(0)), While(B("<", V("s"), I(2)), Block([Decl("int", "t"), ES(A(V("g0"), B("+", B("*", V("g0"), I(10)), V("t")))), ES(A(V("s"), B("+", V("s"), I(1)))), ES(A(V("t"), I(9)))])), Ret(V("g0"))]),
+        f([Block([Decl("float", "w", F("2.5"))]), Block([Decl("float", "w"), ES(A(V("g0"), B(">", V("w"), F("1.0"))))]), Ret(V("g0"))]),
+    ]
+    calls = [{"fn": "f", "args": {"p0": a_, "p1": b_}, "globals": {"g0": 3} if k == 0 else {}, "read_globals": ["g0"]} for k, (a_, b_) in enumerate(((2, 5), (1, 4), (0, 2)))]
+    return [(m, calls) for m in progs for _ in (0, 1)]
+
+
 def variants(g, rng):
     """one base program and mutated copies: an extra declaration / use at every kind of point with every kind of name"""
     m, slots, names = g.program()
@@ -305,7 +325,7 @@ def run(ctx):
             bad_model.append(x)
     # run-time binding: sibling scopes declaring the same names, executed by the real VM, the VM model and the reference semantics
     import vmcases
-    rt = [binding_program(rng) for _ in range(60 if ctx.tier == "quick" else 1500)]
+    rt = binding_targets() + [binding_program(rng) for _ in range(60 if ctx.tier == "quick" else 1500)]
     rjobs = [vmcases.job(nslgen.render(m, "canonical", rng)[0], calls, optimize=bool(k % 2)) for k, (m, calls) in enumerate(rt)]
     rres = ctx.run_impl("compile_impl.py", rjobs, nworkers=16)
     blocks, rmeta, rt_bad = [], [], []
